@@ -359,6 +359,16 @@ def _signatures(ctx):
             m = [x for x in m if x != 'vmdk']   # text descriptors: by content
         if len(want) >= 2:
             multi += 1
+        unknown = [(by_cls[c], r.get('failure') or
+                    _insp.describe(r['final']['format_match']))
+                   for (c, k, s), r in sorted(results.items())
+                   if k == key and s == 'giant' and by_cls[c] != 'raw' and (
+                       'failure' in r or
+                       r['final']['format_match'][0] != 'value')]
+        if unknown:
+            rep.undecided('R3.4', 'overlay %s' % key[5:], 'the model has no '
+                          'answer for %s: %s' % unknown[0])
+            continue
         rep.check('R3.4', 'overlay %s' % key[5:], sorted(m) == sorted(want),
                   'matching inspectors %s, signatures present %s' % (
                       sorted(m), sorted(want)))
